@@ -260,6 +260,27 @@ def cases_for(ty, n, args, count, rng, TYPES, exhaustive_limit=1 << 16, op=''):
             while k < count:
                 yield triple(n, rng); k += 1
             return
+    if len(args) == 1 and (args[0] in TYPES or args[0] == 'P') and op:
+        # narrowing conversions: every rounding boundary of the target format, expressed in the source format
+        # (an (m+1)-bit posit pattern left-aligned in the source) and its neighbours
+        src = TYPES[args[0]]['n'] if args[0] in TYPES else n
+        import re as _re
+        mt = _re.search(r'p(8|16|32)', op) if ('to_p' in op or 'from_p' in op or '_to_px' in op or '_from_px' in op) else None
+        tgt = int(mt.group(1)) if mt else None
+        if args[0] == 'P' and mt and 'from_p' in op: tgt = None
+        if args[0] in TYPES and ('from_' in op): tgt = n
+        if tgt and tgt < src:
+            import sys, os
+            sys.path.insert(0, os.path.join(os.path.dirname(os.path.dirname(os.path.abspath(__file__))), 'tools'))
+            from pyspec import to_rat, rnd
+            es_s, es_t = _ES[src], _ES[tgt]
+            pts = interesting_posits(tgt, rng, 700) if tgt > 8 else list(range(1 << tgt))
+            for p in pts:
+                v = to_rat(tgt + 1, es_t, ((p << 1) | 1) & ((1 << (tgt + 1)) - 1))     # the tie between p and its successor
+                if v is None: continue
+                mid = rnd(src, es_s, v)
+                for d in (0, 1, -1):
+                    yield ((mid + d) & ((1 << src) - 1),)
     if len(args) == 1 and args[0] in TYPES:
         w = TYPES[args[0]]['n']
         if (1 << w) <= exhaustive_limit:
